@@ -66,7 +66,10 @@ ObsClauses(o, s) ==
             \cup (IF o.sel_left = <<>> /\ act = {} /\ ~IncOK(G, nodes) THEN {"C06.conflict_in_feasible_final"} ELSE {})
             \cup UNION {IF ViableIn(adm, G, s, c) \subseteq OfferedSet(o, c) THEN {} ELSE {"C06.viable_option_not_offered"}
                         : c \in OfferedChoices(o) \cap act}
-            \cup (IF OfferedChoices(o) \subseteq act THEN {} ELSE {"C02.next_choice_not_active_in_semantics"}))
+            \cup (IF OfferedChoices(o) \subseteq act THEN {} ELSE {"C02.next_choice_not_active_in_semantics"})
+            \* an option whose selection by itself confirms both ends of an incompatibility must not be offered
+            \cup UNION {IF \A k \in OfferedSet(o, c) : IncOK(G, Reach(G, [s EXCEPT ![c] = k])) THEN {}
+                        ELSE {"C06.offered_option_confirms_incompatible_pair"} : c \in OfferedChoices(o) \cap act})
 
 \* model-exact comparisons that are NOT demanded by a property: reported as drift only
 DriftClauses(o, s) ==
